@@ -18,8 +18,11 @@ class ParamGen:
     """build(shape, depth, positive) -> Parameter whose value is defined (finite) under the
     initial valuation; `positive` demands a strictly positive tensor (for Log / stddev inputs)."""
 
-    def __init__(self, rng: random.Random, *, complex_: bool = False, allow: set | None = None):
+    def __init__(self, rng: random.Random, *, complex_: bool = False, allow: set | None = None, index_rng: random.Random | None = None):
         self.rng = rng
+        # index lists may be drawn from a separate stream so that structurally identical copies of a
+        # graph (same shapes, axes, lengths) carry *different* indices
+        self.index_rng = index_rng
         self.complex = complex_
         self.allow = allow
         self.kinds_used: set[str] = set()
@@ -63,7 +66,7 @@ class ParamGen:
         if not positive:
             c += ["square", "conjugate", "outer_sum"]
             if not self.complex:
-                c += ["log", "logsoftmax", "reduce_lse"]
+                c += ["log", "logsoftmax", "reduce_lse", "log_of_softmax"]
                 if r == 1:
                     c += ["gp_mean", "gp_logpartition"]
             if r == 2:
@@ -101,7 +104,9 @@ class ParamGen:
         if op == "index":
             m = rng.randint(1, 4)
             s_in = shape[:ax] + (m,) + shape[ax + 1 :]
-            idx = [rng.randrange(m) for _ in range(shape[ax])]
+            idx = [(self.index_rng or rng).randrange(m) for _ in range(shape[ax])]
+            if self.index_rng is not None:
+                _ = [rng.randrange(m) for _ in range(shape[ax])]  # keep the main stream aligned
             return P.Parameter.from_unary(P.IndexParameter(s_in, indices=idx, axis=ax_arg), sub(s_in))
         if op in ("reduce_sum", "reduce_prod", "reduce_lse"):
             if r >= 3:
@@ -135,6 +140,8 @@ class ParamGen:
             return P.Parameter.from_unary(P.ConjugateParameter(shape), sub(shape))
         if op == "softmax":
             return P.Parameter.from_unary(P.SoftmaxParameter(shape, axis=ax_arg), sub(shape, False))
+        if op == "log_of_softmax":  # the composition the optimiser rewrites into LogSoftmax
+            return P.Parameter.from_sequence(sub(shape, False), P.SoftmaxParameter(shape, axis=ax_arg), P.LogParameter(shape))
         if op == "logsoftmax":
             return P.Parameter.from_unary(P.LogSoftmaxParameter(shape, axis=ax_arg), sub(shape, False))
         if op == "mixing":
@@ -175,5 +182,5 @@ ALL_NODE_KINDS = [
 OP_NAMES = [
     "sum", "hadamard", "kronecker", "outer_product", "outer_sum", "index", "reduce_sum", "reduce_prod", "reduce_lse",
     "exp", "log", "square", "softplus", "sigmoid", "scaled_sigmoid", "clamp", "conjugate", "softmax", "logsoftmax",
-    "mixing", "gp_mean", "gp_stddev", "gp_logpartition", "poly_product", "poly_diff",
+    "mixing", "gp_mean", "gp_stddev", "gp_logpartition", "poly_product", "poly_diff", "log_of_softmax",
 ]
